@@ -3,7 +3,7 @@
    Compiled from the build directory: the .ml/.mli files land in the cwd. *)
 Require Extraction.
 Require Import ExtrOcamlBasic.
-From RV Require Import Base.Prelude Base.Cursor Name.NameModel Wire.WireTypes Wire.WireModel Wire.WireFast.
+From RV Require Import Base.Prelude Base.Cursor Name.NameModel Wire.WireTypes Wire.WireModel.
 
 Extraction Blacklist String List Nat Bool.
 Set Extraction Optimize.
@@ -17,6 +17,5 @@ Separate Extraction
   Base.Prelude.show_dec
   (* ocaml/vrr.ml *)
   Wire.WireTypes.rr_eqb Wire.WireTypes.question_eqb
-  (* the wire codec; [encode_fast] is [encode] with a linear-time final reversal
-     (Wire/WireFast.v, [encode_fast_eq : encode_fast m = encode m]) *)
-  Wire.WireModel.decode Wire.WireModel.encode Wire.WireFast.encode_fast Wire.WireModel.werr_id.
+  (* the wire codec *)
+  Wire.WireModel.decode Wire.WireModel.encode Wire.WireModel.werr_id.
